@@ -139,6 +139,11 @@ def _gen_main(rng, tier):
                       ["send", {"type": "http.response.start", "status": 200, "headers": [(b"x-tag", b"%d" % tag)]}],
                       ["yield", rng.choice([0, 1, 3])],
                       ["send_stream", ("c9", tag), size, chunk, True]]
+            trailers = rng.random() < 0.15
+            if trailers:
+                # the END_STREAM then rides on the trailers' HEADERS frame: it is owed all the same, also after a body of no bytes at all
+                script[1][1]["trailers"] = True
+                script.append(["send", {"type": "http.response.trailers", "headers": [(b"x-trailer", b"t%d" % tag)], "more_trailers": False}])
             by_tag[str(tag)] = script
             prio = None
             if rng.random() < 0.3:
@@ -150,7 +155,7 @@ def _gen_main(rng, tier):
                 blob += fb.priority(sid, dep=rng.choice([0] + [s["sid"] for s in streams[:-1]]) if len(streams) > 1 else 0,
                                     weight=rng.randrange(256))
             blob += fb.headers(sid, [(b":method", b"GET"), (b":scheme", b"http"), (b":path", b"/t%d" % tag),
-                                     (b":authority", b"h")], end_stream=True, priority=prio)
+                                     (b":authority", b"h")] + ([(b"te", b"trailers")] if trailers else []), end_stream=True, priority=prio)
         client = []
         if policy == "auto":
             rspec["credit"] = "auto"
